@@ -12,5 +12,10 @@ open Gen.SourceFacts
 theorem gen_local_opt_call :
     localOptCall = "if individual.needs_local_optimization():     self.optimizer(individual) ; return self._fitness_function(individual)" := rfl
 
+/-- storing constants clears the optimization request unconditionally (`LocalOpt` model: after the optimizer wrote its result the individual no longer asks) -/
+theorem gen_set_params :
+    agraphSetLocalOptParams = "self._simplified_constants = tuple(params) ; self._needs_opt = False" :=
+  rfl
+
 end C06Facts
 end Bingo
